@@ -32,6 +32,7 @@ type PCluster struct {
 	cut      map[int]bool
 	pipes    map[int][]context.CancelFunc
 	Snapshot atomic.Bool // a snapshot transfer happened (outside M-Repl)
+	snapshots atomic.Int32 // snapshot transfers in flight
 }
 
 type PNode struct {
@@ -68,6 +69,7 @@ func NewP(n int) (*PCluster, error) {
 }
 
 func (c *PCluster) Close() {
+	c.waitSnapshots()
 	for i := range c.Nodes {
 		c.dropStreams(i)
 	}
@@ -228,7 +230,9 @@ func (t ptransport) SendSnapshot(ctx context.Context, follower string, ns string
 	pctx, cancel := context.WithCancel(ctx)
 	t.c.register(t.from, to, cancel)
 	p := &snapPipe{ctx: pctx, cancel: cancel, chunks: make(chan *proto.SnapshotChunk, 4), done: make(chan struct{}), resp: make(chan *proto.SnapshotResponse, 1)}
+	t.c.snapshots.Add(1)
 	go func() {
+		defer t.c.snapshots.Add(-1)
 		f, err := t.c.Nodes[to].dirc.GetOrCreateFollower(ns, shard, term)
 		if err != nil {
 			cancel()
@@ -367,6 +371,30 @@ func (c *PCluster) Write(i int, id int, timeout time.Duration) string {
 		}
 		return "timeout" // failed after the append (tracker closed by a new term): outcome unknown to the client
 	case <-time.After(timeout):
+	}
+	// no answer yet: when the leader can reach a majority, a cursor may be sleeping in its reconnection backoff
+	c.mu.Lock()
+	reach := 0
+	for j := range c.Nodes {
+		if !c.cut[j] {
+			reach++
+		}
+	}
+	leaderCut := c.cut[i]
+	c.mu.Unlock()
+	if leaderCut || 2*reach <= len(c.Nodes) {
+		return "timeout"
+	}
+	select {
+	case r := <-cb.done:
+		if r == "ok" {
+			return "ok"
+		}
+		if strings.Contains(r, "Received message in the wrong state") {
+			return "err:not-leader"
+		}
+		return "timeout"
+	case <-time.After(4 * time.Second):
 		return "timeout"
 	}
 }
@@ -500,7 +528,19 @@ func (c *PCluster) RaceAppendNewTerm(l, f int, id int, term int64) string {
 }
 
 // Restart closes the node's controllers (process restart); they are re-created on demand.
+// waitSnapshots: a snapshot installation replaces the database directory of the receiving node file by file; a
+// stream that is torn down in the middle leaves a directory Pebble refuses to open - and its logger ends the
+// process (observation D-39 in DESIGN.md, outside M-Repl). The harness lets transfers finish before it breaks
+// streams.
+func (c *PCluster) waitSnapshots() {
+	deadline := time.Now().Add(10 * time.Second)
+	for c.snapshots.Load() > 0 && time.Now().Before(deadline) {
+		time.Sleep(2 * time.Millisecond)
+	}
+}
+
 func (c *PCluster) Restart(i int) error {
+	c.waitSnapshots()
 	n := c.Nodes[i]
 	c.mu.Lock()
 	wasCut := c.cut[i]
@@ -738,4 +778,90 @@ func (c *PCluster) FailNextAppend(i int) {
 	if f, ok := c.Nodes[i].walf.(*FaultyWalFactory); ok {
 		f.FailNextAppends(1)
 	}
+}
+
+// StaleLeaderActive: another reachable node still runs a leader controller in a lower term (a deposed leader that
+// has come back and has not been fenced yet). Its cursors keep connecting to the followers, which take one
+// replication stream at a time: the cursor of the leader in office can be kept out for several backoff rounds,
+// so whether a write completes in time is a matter of timing then.
+func (c *PCluster) StaleLeaderActive(i int) bool {
+	lc, err := c.Nodes[i].dirc.GetLeader(Shard)
+	if err != nil {
+		return false
+	}
+	for j, n := range c.Nodes {
+		if j == i || c.isCut(j, j) {
+			continue
+		}
+		if o, err := n.dirc.GetLeader(Shard); err == nil && o.Status() == proto.ServingStatus_LEADER && o.Term() < lc.Term() {
+			return true
+		}
+	}
+	return false
+}
+
+// RaceAppendRedeliver: an entry of the leader `l` has been appended by the follower `f`, whose sync goroutine has
+// not yet run, when the stream between them breaks; the leader's cursor reconnects and delivers the entry again.
+// Reports whether the leader got an acknowledgement for it while it was not yet among the follower's synced
+// entries ("ack-before-sync"), "ok" otherwise, "norace" when the follower did not take the entry.
+func (c *PCluster) RaceAppendRedeliver(l, f int, id int) string {
+	fc, ferr := c.Nodes[f].dirc.GetFollower(Shard)
+	lc, lerr := c.Nodes[l].dirc.GetLeader(Shard)
+	if ferr != nil || lerr != nil {
+		return "norace"
+	}
+	before := len(c.View(f).Log)
+	release := make(chan struct{})
+	reached := make(chan struct{})
+	var fired atomic.Bool
+	server.SetVerifYieldHook(fc, func(p string) {
+		if p == "follower.sync.woken" && fired.CompareAndSwap(false, true) {
+			close(reached)
+			<-release
+		}
+	})
+	defer server.SetVerifYieldHook(fc, nil)
+	shard := Shard
+	cb := writeCb{done: make(chan string, 1)}
+	go lc.Write(context.Background(), &proto.WriteRequest{Shard: &shard, Puts: []*proto.PutRequest{{Key: fmt.Sprintf("w%d", id), Value: []byte(fmt.Sprint(id))}}}, cb)
+	took := false
+	select {
+	case <-reached:
+		took = true
+	case <-time.After(2 * time.Second):
+	}
+	res := "ok"
+	if took {
+		// the entry is appended, not synced; the stream breaks; the cursor comes back and delivers it again
+		c.dropStreams(f)
+		deadline := time.Now().Add(1500 * time.Millisecond)
+		for time.Now().Before(deadline) {
+			acked := int64(-2)
+			if cur, ok := server.VerifLeaderCursors(lc)[name(f)]; ok {
+				acked = cur
+			}
+			synced := len(readLog(server.VerifFollowerWal(fc)))
+			if acked >= int64(before) && synced <= before {
+				res = "ack-before-sync"
+				break
+			}
+			if acked >= int64(before) {
+				break
+			}
+			time.Sleep(5 * time.Millisecond)
+		}
+	}
+	fired.Store(true)
+	if took {
+		close(release)
+	}
+	select {
+	case <-cb.done:
+	case <-time.After(1500 * time.Millisecond):
+	}
+	time.Sleep(30 * time.Millisecond)
+	if !took {
+		return "norace"
+	}
+	return res
 }
